@@ -31,7 +31,7 @@ DEFAULTS = dict(
     min_list_len=0,      # C05: 1 keeps empty list literals (type not ground) away
     p_head_perm=0.0,     # named head arguments listed in a drawn order (per rule / fact)
     p_if_composite=0.0,  # if-then-else whose branches are lists / records
-    allow_mba_head_perm=False,
+    allow_mba_head_perm=True,   # False restores the exclusion of the (fixed, 288b00f) mba finding
     p_spread_edb=0.0,    # fact table with pairwise different values in one Num column
     avoid_d11=True,      # known finding C01 D11 (see gen.cmp); False re-derives it
     p_recif=0.0,         # a variable bound to a record-valued if-then-else, read >= 2 times
@@ -687,8 +687,8 @@ class Gen(object):
             if self.chance(o['p_short']):
                 opts.append('short')
             if distinct and nrules > 1 and not o.get('allow_mba_head_perm'):
-                # open known finding (C02 mba_named_head_order): multi-body aggregation
-                # refuses bodies that list their named head arguments in another order
+                # finding C02 mba_named_head_order (fixed in /repo by 288b00f): multi-body
+                # aggregation refused bodies listing named head arguments in another order
                 if o['p_head_perm'] and len(head) >= 2 and self.chance(o['p_head_perm']):
                     self.excl('mba_named_head_order')
             else:
